@@ -43,7 +43,13 @@ Definition ow_classify (p p' : node) : ow_shape :=
               if forallb (fun c => snd (fst (fst c)) <=? 1) cs then
                 match nth_error (tys_of nd) 1, find (fun c => Nat.eqb (snd (fst (fst c))) 1) cs with
                 | Some (Some old), Some (_, _, _, Some new) =>
-                    if forallb (fun c => oty_eqb (snd c) (Some new)) cs
+                    (* the DECLARED type (slot 0) of the mutated program must carry the new type: an
+                       overwrite that only touches the recorded copy is invisible in the program text *)
+                    if forallb (fun c => oty_eqb (snd c) (Some new)) cs &&
+                       match node_at p' path with
+                       | Some nd' => match nth_error (tys_of nd') 0 with Some o0 => oty_eqb o0 (Some new) | None => false end
+                       | None => false
+                       end
                     then OwOne {| s_path := path; s_kind := k; s_old := old; s_new := new |}
                     else OwOtherSlot
                 | Some (Some old), None =>
